@@ -1705,7 +1705,6 @@ func errorsThroughFilter(c *chk.Ctx, ev ssa.Value) (through, some bool) {
 	return
 }
 
-
 // filterErrorFunc resolves, by signature, the function that turns a peer's
 // *Error back into the error the caller sees: func(*Error) error.
 func filterErrorFunc(c *chk.Ctx) *ssa.Function {
